@@ -75,3 +75,29 @@ Theorem C04_concat_trees : forall s,
   chk_C04 s (api_tree s []) = 0.
 Proof. exact ProvConcatLines.concat_chk_C04. Qed.
 Print Assumptions C04_concat_trees.
+
+(* ---- trees that also contain ReplaceSource nodes (class pshape): Raw* / Original leaves under
+   ConcatSource and ReplaceSource nodes to any depth - surviving bytes keep their origin, a cut starts a
+   new piece at its own column, replacement content is free ---- *)
+From RS Require Import Proofs.RStreamTree Proofs.ReplAttrTree.
+From RS Require Proofs.ProvConcatBytes Proofs.ProvConcatLines Proofs.ProvReplaceBytes Proofs.ProvReplaceSegs Proofs.ProvReplaceTables.
+
+(* columns = true, Raw* / OriginalSource leaves under ConcatSource and ReplaceSource nodes to any depth *)
+Theorem C04_replace_columns : forall st s,
+  ProvReplaceBytes.pshape s = true -> treeA s = true -> rsmall s = true -> csmall s = true ->
+  names_determine_content (originals s) = true ->
+  ProvConcatBytes.fields_small st (ProvReplaceBytes.peel s) ->
+  let m1 := fst (map_of st s true) in
+  let tg := tagged (source s) (prov s) 1 0 in
+  let segs := match m1 with Some m => rsegs_of_map m | None => [] end in
+  forallb (ChkProv.seg_ok tg) segs = true /\ forallb (byte_ok segs) tg = true.
+Proof. exact ProvReplaceSegs.replace_c04_cols. Qed.
+Print Assumptions C04_replace_columns.
+
+Theorem C04_replace_trees : forall s,
+  ProvReplaceBytes.pshape s = true -> c04_domain s = true -> rsmall s = true -> csmall s = true ->
+  ProvConcatBytes.fields_small [] (ProvReplaceBytes.peel s) ->
+  (has_replace s = false -> ProvConcatLines.fields_small_lines [] s) ->
+  chk_C04 s (api_tree s []) = 0.
+Proof. exact ProvReplaceTables.replace_chk_C04. Qed.
+Print Assumptions C04_replace_trees.
